@@ -11,7 +11,7 @@
    FlushError, so flush errors come back) and yields, per call, the value it returned (0 = nil)
    and the writer calls it made; [full_log] concatenates them.  All theorems are for every
    call sequence, every message and every script.  net/http itself is not modelled. *)
-From GoSse Require Import Base Lines Fields Message MessageProofs Session SessionProofs SessionOps SessionTheorems.
+From GoSse Require Import Base Lines Fields Message MessageProofs Session SessionProofs SessionOps SessionTheorems SessionOracle.
 From GoSse.Gen Require Import Params.
 Local Open Scope nat_scope.
 
@@ -79,6 +79,26 @@ Theorem C16_first_error :
     script_ok script -> run_calls (fresh reports script) calls = (rs, sf, ok) ->
     nth_error rs i = Some (e, seg) -> e = first_error seg.
 Proof. exact first_error_returned. Qed.
+
+(* ... and the errors the writer answers are the script's, in order: the k-th Write/Flush of the
+   whole log got the k-th verdict ([plays], Session.v; a missing verdict = success; a writer
+   reached through plain Flush() cannot report).  With C16_first_error: a call returns the first
+   failing verdict it reaches. *)
+Theorem C16_first_error_is_the_scripts :
+  forall reports script calls rs sf ok,
+    script_ok script -> run_calls (fresh reports script) calls = (rs, sf, ok) ->
+    plays reports (full_log rs) script = true.
+Proof. exact script_played_in_order. Qed.
+
+(* The direct oracle the harness applies to OBSERVED logs ([session_ok], Session.v: upgrade
+   automaton, per-call body/flush/error clauses) accepts everything the model does: an oracle
+   alarm can only come with a model/implementation mismatch. *)
+Theorem C16_oracle_accepts_model :
+  forall reports script calls rs sf,
+    script_ok script -> Forall has_wire calls ->
+    run_calls (fresh reports script) calls = (rs, sf, true) ->
+    session_ok calls rs = true.
+Proof. exact session_oracle_sound. Qed.
 
 (* ServeHTTP, for every writer shape, header, OnSession result, provider behaviour and script. *)
 Theorem C16_serve :
